@@ -212,6 +212,21 @@ CHECKS["C03"] = dict(
     technique="Coq proof (reachable-state invariant + two-mode product relation; mechanism model invariants) + trace-acceptance correspondence",
     design="DESIGN.md section 6 C03, section 13")
 
+CHECKS["C06"] = dict(
+    engine="coq-engine",
+    text="Coq theorem c06_gating: for EVERY shape, trace and interleaving accepted by the observable engine automaton the per-scope monitor "
+         "mon_gate holds: after a bypass group passed no other plugin event of that scope occurs and the scope ends Completed; a failed "
+         "bypass alone never fails the scope (a Failed scope has another failed stage); a sequence action starts only when every pre action "
+         "and every action of the initial continuous run returned ok, so a failed pre / initial continuous run means no sequence action "
+         "ever, the scope ends Failed, and the run is released (c06_gating_at_release, c06_no_sequence_behind_a_closed_gate, "
+         "c06_nothing_after_a_passed_bypass). Correspondence: all 224 (level, presence subset of the five groups, bypass ok / first failing "
+         "group) combinations + mixed, cont, final profiles on every run, acceptance and monitor by vm_compute; Hang is a violation of the "
+         "release obligation; the source-regenerated state graph facts (bypass successors, sequences gated, deferred dominates End) are "
+         "re-proved on every run.",
+    note=ENGINE_NOTE + "recovered runs and entrance/exit delays are not covered; the tolerance iff is C03, stage order C01",
+    technique="Coq proof (reachable-state invariant pinv + per-scope product relations) + trace-acceptance correspondence + source-generated graph facts",
+    design="DESIGN.md section 6 C06, section 13")
+
 PENDING_REASON = "check under construction in this session (see DESIGN.md section 12 build order); not yet claimed"
 
 
